@@ -96,9 +96,10 @@ def build_lib(sanitize=False):
             finally:
                 shutil.rmtree(scratch, ignore_errors=True)
             # keep the cache small
+            # (entries used in the last two hours are kept: another check may be running on them)
             olds = sorted(glob.glob(os.path.join(CACHE, 'lib-*')), key=os.path.getmtime)
             for o in olds[:-3]:
-                if o != dest:
+                if o != dest and time.time() - os.path.getmtime(o) > 7200:
                     shutil.rmtree(o, ignore_errors=True)
         os.utime(dest)
     link = open(os.path.join(dest, 'link')).read().split() or ['-lxml2', '-lz']
